@@ -292,7 +292,7 @@ theorem step_preserves_fileOk (cfg : Cfg) (hcfg : HashSafe cfg) (st : St) (pfx :
     refine ⟨?_, hids'⟩
     have hshape := body_shape cfg st pfx c hc hr
     rw [← hr'] at hshape
-    rcases hshape with (hsv | ⟨hf, hg⟩) | ⟨u, hu, hf⟩ | ⟨hcc, hfalse⟩
+    rcases hshape with (hsv | ⟨hf, hg⟩) | ⟨u, hu, hf⟩ | ⟨hcc, hfalse, _⟩
     · exact fileOk_of_saved hsv hsafe' hids'
     · exact fileOk_of_grow hf (by rw [hr']; exact body_cu cfg st pfx c hc hr) hg hfile
     · -- register from a too-wild hostmask
@@ -411,13 +411,14 @@ theorem flushReload_fileOk (cfg : Cfg) (st : St) (hinv : Inv st) :
     (C16.dumpChannels (reloadUsersFrom cfg st { users := st.users, nextId := st.nextId }).channels)
   exact ⟨fileOk_congr e1 e4 e2 h1, ids_of_eq h2 e1 e3⟩
 
-theorem reloadNoFlush_fileOk (cfg : Cfg) (st : St) (hinv : Inv st) (hf : FileOk st) :
+theorem reloadNoFlush_fileOk (cfg : Cfg) (st : St) (hinv : Inv st)
+    (hf : ∀ db, st.usaved = some db → ∀ p ∈ db.users, C16.SafeUser p.2) :
     FileOk (reloadSt cfg st) ∧ IdsOk (reloadSt cfg st) := by
   have hu : FileOk (reloadU cfg st) ∧ IdsOk (reloadU cfg st) := by
     unfold reloadU
     split
     · rename_i db ht
-      exact reloadUsersFrom_file cfg st db hinv (hf db ht).1
+      exact reloadUsersFrom_file cfg st db hinv (hf db ht)
     · rename_i hnone
       refine ⟨?_, ⟨by simp, fun p hp => (by cases hp)⟩⟩
       intro t ht
@@ -463,7 +464,7 @@ theorem step_safe_all (cfg : Cfg) (hcfg : HashSafe cfg) (st : St) (pfx : Str) (h
     exact ⟨no_new_owner_reload cfg st h.inv, ⟨hinv', i, f⟩⟩
   by_cases hr : c = .reload
   · subst hr
-    obtain ⟨f, i⟩ := reloadNoFlush_fileOk cfg st h.inv h.file
+    obtain ⟨f, i⟩ := reloadNoFlush_fileOk cfg st h.inv (fun db hdb => (h.file db hdb).1)
     exact ⟨no_new_owner_reloadNoFlush cfg st h.inv h.file, ⟨hinv', i, f⟩⟩
   · obtain ⟨f, i⟩ := step_preserves_fileOk cfg hcfg st pfx hpfx c hc hr h.inv h.ids h.file hq
     exact ⟨no_new_owner_step cfg st pfx c hc hr, ⟨hinv', i, f⟩⟩
@@ -484,6 +485,165 @@ theorem history_safe_all (cfg : Cfg) (hcfg : HashSafe cfg) (hist : List (Str × 
     obtain ⟨hown, h'⟩ := step_safe_all cfg hcfg st pfx (hp (pfx, c) (by simp)) c h hq
     obtain ⟨h1, h2⟩ := ih (step cfg st pfx c).1 h' (fun e he => hp e (by simp [he])) hg'
     exact ⟨fun id hid => hown id (h1 id hid), h2⟩
+
+/-! ## owners, with no run condition at all
+
+`history_safe_all` keeps *every* capability of the saved file below memory and for that needs the
+run condition `GoodRun`.  For the `owner` capability alone nothing is needed: no command can put
+`owner` into memory, the file is only ever a copy of memory, so neither ever names an owner
+outside the initial ones — whatever fails in between. -/
+
+def ownersOf (l : List (Nat × C16.User)) : List Nat := (l.filter (fun p => p.2.caps.contains C03.ownerS)).map (·.1)
+
+theorem mem_ownersOf {l : List (Nat × C16.User)} {id : Nat} :
+    id ∈ ownersOf l ↔ ∃ u, (id, u) ∈ l ∧ C03.ownerS ∈ u.caps := by
+  unfold ownersOf
+  simp only [List.mem_map, List.mem_filter, List.contains_eq_mem, decide_eq_true_eq]
+  constructor
+  · rintro ⟨p, ⟨hp, ho⟩, rfl⟩
+    exact ⟨p.2, hp, ho⟩
+  · rintro ⟨u, hu, ho⟩
+    exact ⟨(id, u), ⟨hu, ho⟩, rfl⟩
+
+/-- the saved file is readable line by line and names no owner outside `O` (or nothing can be loaded) -/
+def FileOwn (O : Nat → Prop) (st : St) : Prop :=
+  ∀ db, st.usaved = some db →
+    (∀ p ∈ db.users, C16.SafeUser p.2) ∧ ((∀ id ∈ ownersOf db.users, O id) ∨ C16.Stuck st.cu)
+
+/-- memory and the saved file name no owner outside `O` -/
+structure OwnInv (O : Nat → Prop) (st : St) : Prop where
+  inv : Inv st
+  mem : ∀ id ∈ owners st, O id
+  file : FileOwn O st
+
+theorem fileOwn_of_fileOk {O : Nat → Prop} {st : St} (hf : FileOk st) (hm : ∀ id ∈ owners st, O id) : FileOwn O st := by
+  intro db hdb
+  obtain ⟨hs, hh⟩ := hf db hdb
+  refine ⟨hs, ?_⟩
+  rcases hh with hh | hh
+  · left
+    intro id hid
+    obtain ⟨f, hfm, ho⟩ := mem_ownersOf.mp hid
+    obtain ⟨u, hu, hx⟩ := hh (id, f) hfm _ ho
+    exact hm id (mem_owners.mpr ⟨u, user_mem hu, hx⟩)
+  · exact Or.inr hh
+
+theorem fileOwn_same {O : Nat → Prop} {st st' : St} (e : st'.usaved = st.usaved) (ecu : st'.cu = st.cu)
+    (h : FileOwn O st) : FileOwn O st' := by
+  intro db hdb
+  rw [e] at hdb
+  rw [ecu]
+  exact h db hdb
+
+/-- a reload without flush brings no owner outside `O` into memory -/
+theorem reloadNoFlush_owners {O : Nat → Prop} (cfg : Cfg) (st : St) (h : OwnInv O st) :
+    ∀ id ∈ owners (reloadSt cfg st), O id := by
+  intro id hid
+  obtain ⟨u', hu', ho⟩ := mem_owners.mp hid
+  rw [reloadSt_users] at hu'
+  unfold reloadU at hu'
+  split at hu'
+  · rename_i db ht
+    obtain ⟨hsafe, hown⟩ := h.file db ht
+    rw [reloadUsersFrom_users] at hu'
+    rcases hown with hown | hstuck
+    · obtain ⟨f, hfm, hxf⟩ := C16.load_caps_sub (envOf cfg) st.cu db h.inv.cuok hsafe (id, u') hu' _ ho
+      exact hown id (mem_ownersOf.mpr ⟨f, hfm, hxf⟩)
+    · rw [(C16.load_stuck (envOf cfg) st.cu db hstuck hsafe).1] at hu'
+      cases hu'
+  · cases hu'
+
+/-- **every step keeps owners — in memory and in the saved file — among `O`**, with no condition on
+replies, on loads completing, or on who sends what -/
+theorem step_ownInv {O : Nat → Prop} (cfg : Cfg) (hcfg : HashSafe cfg) (st : St) (pfx : Str) (hpfx : C16.noBreak pfx)
+    (c : Cmd) (h : OwnInv O st) : OwnInv O (step cfg st pfx c).1 := by
+  have hinv' := step_preserves_inv cfg hcfg st pfx hpfx c h.inv
+  by_cases hc : c = .flushReload
+  · subst hc
+    have hm : ∀ id ∈ owners (step cfg st pfx .flushReload).1, O id :=
+      fun id hid => h.mem id (no_new_owner_reload cfg st h.inv id hid)
+    exact ⟨hinv', hm, fileOwn_of_fileOk (flushReload_fileOk cfg st h.inv).1 hm⟩
+  by_cases hr : c = .reload
+  · subst hr
+    have hm : ∀ id ∈ owners (step cfg st pfx .reload).1, O id := reloadNoFlush_owners cfg st h
+    exact ⟨hinv', hm, fileOwn_of_fileOk (reloadNoFlush_fileOk cfg st h.inv (fun db hdb => (h.file db hdb).1)).1 hm⟩
+  · have hm : ∀ id ∈ owners (step cfg st pfx c).1, O id :=
+      fun id hid => h.mem id (no_new_owner_step cfg st pfx c hc hr id hid)
+    refine ⟨hinv', hm, ?_⟩
+    have key : ∀ r : St × Bool, r = body cfg st pfx c → step cfg st pfx c = r → FileOwn O r.1 := by
+      intro r hr' hstep
+      have hsafe' : SafeUsers r.1 := by rw [← hstep]; exact hinv'.users
+      have hm' : ∀ id ∈ owners r.1, O id := by rw [← hstep]; exact hm
+      have hcu : r.1.cu = st.cu := by rw [hr']; exact body_cu cfg st pfx c hc hr
+      have hshape := body_shape cfg st pfx c hc hr
+      rw [← hr'] at hshape
+      rcases hshape with (hsv | ⟨hf, _⟩) | ⟨u, hu, hf⟩ | ⟨_, _, hf⟩
+      · intro db hdb
+        rw [hsv] at hdb
+        injection hdb with hdb
+        subst hdb
+        exact ⟨hsafe', Or.inl hm'⟩
+      · exact fileOwn_same hf hcu h.file
+      · intro db hdb
+        rw [hf] at hdb
+        injection hdb with hdb
+        subst hdb
+        refine ⟨?_, Or.inl ?_⟩
+        · intro p hp
+          rcases List.mem_append.mp hp with hp | hp
+          · exact h.inv.users p hp
+          · simp only [List.mem_singleton] at hp; subst hp; exact safeUser_hashedOnly
+        · intro id hid
+          obtain ⟨f, hfm, ho⟩ := mem_ownersOf.mp hid
+          rcases List.mem_append.mp hfm with hp | hp
+          · exact h.mem id (mem_owners.mpr ⟨f, hp, ho⟩)
+          · simp only [List.mem_singleton] at hp
+            injection hp with _ hp
+            subst hp
+            simp at ho
+      · exact fileOwn_same hf hcu h.file
+    unfold step
+    cases c with
+    | flushReload => exact absurd rfl hc
+    | reload => exact absurd rfl hr
+    | flushAll => exact key _ rfl rfl
+    | upkeep on => exact key _ rfl rfl
+    | _ =>
+      simp only []
+      split
+      · exact h.file
+      · split
+        · rename_i hig hal
+          apply key _ rfl
+          unfold step
+          simp only [hig, hal, if_true, Bool.false_eq_true, if_false]
+        · exact h.file
+
+/-- **No history creates an owner — unconditionally.**  From a state satisfying `Inv` whose saved
+users file is the state itself (or absent), after any finite history of commands from any
+hostmasks, flush+reload points, reloads that read the files as they are (SIGHUP, `config reload`),
+`world.flush()` and upkeep events — whether commands are acknowledged or fail half-way, whether
+loads complete or stop at any record — every owner is an owner of the initial state. -/
+theorem history_owner_safe (cfg : Cfg) (hcfg : HashSafe cfg) (hist : List (Str × Cmd)) (st : St) (h : Inv st)
+    (hs : Saved st ∨ st.usaved = none) (hp : ∀ e ∈ hist, C16.noBreak e.1) :
+    ∀ id ∈ owners (run cfg st hist), id ∈ owners st := by
+  have gen : ∀ (hist : List (Str × Cmd)) (st' : St), OwnInv (fun id => id ∈ owners st) st' →
+      (∀ e ∈ hist, C16.noBreak e.1) → OwnInv (fun id => id ∈ owners st) (run cfg st' hist) := by
+    intro hist
+    induction hist with
+    | nil => intro st' h' _; exact h'
+    | cons e rest ih =>
+      intro st' h' hp'
+      obtain ⟨pfx, c⟩ := e
+      exact ih _ (step_ownInv cfg hcfg st' pfx (hp' (pfx, c) (by simp)) c h') (fun e he => hp' e (by simp [he]))
+  refine (gen hist st ⟨h, fun id hid => hid, ?_⟩ hp).mem
+  intro db hdb
+  rcases hs with hs | hs
+  · rw [hs] at hdb
+    injection hdb with hdb
+    subst hdb
+    exact ⟨h.users, Or.inl (fun id hid => hid)⟩
+  · rw [hs] at hdb; cases hdb
 
 /-! ## non-vacuity and the two repaired defects -/
 
@@ -559,5 +719,15 @@ example :
       [(1, [s "owner"]), (2, [s "admin"]), (3, [])]) ∧
     ((run cfg0 st [(s "adm!a@admin.host", .capRemove (s "eve") (s "foo")), (s "x", .reload)]).users.map
         (fun p => (p.1, p.2.caps)) = [(1, [s "owner"]), (2, [s "admin"]), (3, [s "foo"])]) := by decide
+
+/-- `history_owner_safe` at the example state: whatever history follows, `root` (id 1) stays the
+only owner -/
+example (hist : List (Str × Cmd)) (hp : ∀ e ∈ hist, C16.noBreak e.1) :
+    ∀ id ∈ owners (run cfg0 (flushU st0) hist), id = 1 := by
+  intro id hid
+  have := history_owner_safe cfg0 cfg0_hashSafe hist (flushU st0) st0_inv3.inv (Or.inl rfl) hp id hid
+  have e : owners (flushU st0) = [1] := by decide
+  rw [e] at this
+  simpa using this
 
 end C02
